@@ -98,17 +98,19 @@ func Bmp2Png(BmpBytes []byte) []byte {
 
 func DecodeUTF16(b []byte) string {
 	var (
-		u16s  = make([]uint16, 1)
+		u16s  = make([]uint16, len(b)/2)
 		b8buf = make([]byte, 4)
 		ret   = &bytes.Buffer{}
 	)
 
-	lb := len(b)
+	// a trailing odd byte is not a UTF-16 code unit and is ignored
+	for i := range u16s {
+		u16s[i] = uint16(b[2*i]) + (uint16(b[2*i+1]) << 8)
+	}
 
-	for i := 0; i < lb; i += 2 {
-		u16s[0] = uint16(b[i]) + (uint16(b[i+1]) << 8)
-		r := utf16.Decode(u16s)
-		n := utf8.EncodeRune(b8buf, r[0])
+	// decode the whole sequence so that surrogate pairs are combined
+	for _, r := range utf16.Decode(u16s) {
+		n := utf8.EncodeRune(b8buf, r)
 		ret.Write(b8buf[:n])
 	}
 
